@@ -206,10 +206,10 @@ func (c *checker) CheckFunctions(t *parser.Thrift) (warns []string, err error) {
 				err = fmt.Errorf("[IDL grammar error] %s.%s: oneway methods can't throw exceptions from file %s", svc.Name, f.Name, t.Filename)
 				return
 			}
-			if err = checkFunctionFields(svc.Name, f.Name, "argument", f.Arguments, t.Filename); err != nil {
+			if err = checkFunctionFields(svc.Name, f.Name, "argument", f.Arguments, t.Filename, false); err != nil {
 				return
 			}
-			if err = checkFunctionFields(svc.Name, f.Name, "exception", f.Throws, t.Filename); err != nil {
+			if err = checkFunctionFields(svc.Name, f.Name, "exception", f.Throws, t.Filename, !f.Void); err != nil {
 				return
 			}
 			for _, a := range f.Arguments {
@@ -246,10 +246,15 @@ func (c *checker) CheckFunctions(t *parser.Thrift) (warns []string, err error) {
 }
 
 // checkFunctionFields rejects duplicated IDs and names in an argument list or a throws list:
-// both become the fields of a generated struct.
-func checkFunctionFields(svc, fn, kind string, fields []*parser.Field, filename string) error {
+// both become the fields of a generated struct. With withSuccess the struct also holds the
+// return value as field 0 named "success".
+func checkFunctionFields(svc, fn, kind string, fields []*parser.Field, filename string, withSuccess bool) error {
 	ids := make(map[int32]bool)
 	names := make(map[string]bool)
+	if withSuccess {
+		ids[0] = true
+		names["success"] = true
+	}
 	for _, a := range fields {
 		if ids[a.ID] {
 			return fmt.Errorf("[IDL grammar error] duplicated %s ID %d in %q.%q from file %s", kind, a.ID, svc, fn, filename)
